@@ -175,6 +175,27 @@ static uint64_t do_call(const std::string& fullname, Fixture& own, int tid, int 
         embedded_pairing_bls12_381_fq12_t r; embedded_pairing_core_bigint_256_t y; memset(&r, 0, sizeof r);
         embedded_pairing_bls12_381_gt_multiply_random(&r, &y, embedded_pairing_bls12_381_gt_generator, rt_random);
         h = fnv(&r, sizeof r, fnv(&y, sizeof y));
+    } else if (name == "g1.decode" || name == "g2.decode") {
+        // validating decode (curve and subgroup checks) of a valid encoding, compressed and uncompressed
+        uint8_t buf[192]; bool ok1, ok2;
+        if (name == "g1.decode") {
+            embedded_pairing_bls12_381_g1affine_t a, b; memset(&a, 0, sizeof a); memset(&b, 0, sizeof b);
+            embedded_pairing_bls12_381_g1_marshal(buf, &f.Pa, true); ok1 = embedded_pairing_bls12_381_g1_unmarshal(&a, buf, true, true);
+            embedded_pairing_bls12_381_g1_marshal(buf, &f.Pa, false); ok2 = embedded_pairing_bls12_381_g1_unmarshal(&b, buf, false, true);
+            h = fnv(&a, sizeof a, fnv(&b, sizeof b)) ^ (ok1 ? 1 : 0) ^ (ok2 ? 2 : 0);
+        } else {
+            embedded_pairing_bls12_381_g2affine_t a, b; memset(&a, 0, sizeof a); memset(&b, 0, sizeof b);
+            embedded_pairing_bls12_381_g2_marshal(buf, &f.Qa, true); ok1 = embedded_pairing_bls12_381_g2_unmarshal(&a, buf, true, true);
+            embedded_pairing_bls12_381_g2_marshal(buf, &f.Qa, false); ok2 = embedded_pairing_bls12_381_g2_unmarshal(&b, buf, false, true);
+            h = fnv(&a, sizeof a, fnv(&b, sizeof b)) ^ (ok1 ? 1 : 0) ^ (ok2 ? 2 : 0);
+        }
+    } else if (name == "wk.unmarshal") {
+        uint8_t buf[4096]; memset(buf, 0, sizeof buf);
+        embedded_pairing_wkdibe_params_marshal(buf, &f.wkp, true);
+        embedded_pairing_wkdibe_params_t p2; embedded_pairing_wkdibe_g1_t hh[8]; memset(&p2, 0, sizeof p2); memset(hh, 0, sizeof hh); p2.h = hh;
+        embedded_pairing_wkdibe_params_set_length(&p2, buf, embedded_pairing_wkdibe_params_get_marshalled_length(&f.wkp, true), true);
+        bool ok = embedded_pairing_wkdibe_params_unmarshal(&p2, buf, true, true);
+        p2.h = nullptr; h = fnv(hh, sizeof hh, fnv(&p2, sizeof p2)) ^ (ok ? 1 : 0);
     } else if (name == "g2.random") {
         embedded_pairing_bls12_381_g2_t r; memset(&r, 0, sizeof r); embedded_pairing_bls12_381_g2_random(&r, rt_random); h = fnv(&r, sizeof r);
     }
